@@ -65,7 +65,7 @@ func (*baseExecutor) GetScanSlice(columnNames []string, tableMeta *types.TableMe
 		case "VARCHAR", "NVARCHAR", "VARCHAR2", "CHAR", "TEXT", "JSON", "TINYTEXT":
 			var scanVal sql.NullString
 			scanSlice = append(scanSlice, &scanVal)
-		case "BIT", "INT", "LONGBLOB", "SMALLINT", "TINYINT", "BIGINT", "MEDIUMINT":
+		case "BIT", "INT", "SMALLINT", "TINYINT", "BIGINT", "MEDIUMINT", "YEAR": // YEAR arrives as a number, not as a time
 			if columnMeta.IsNullable == 0 {
 				scanVal := int64(0)
 				scanSlice = append(scanSlice, &scanVal)
@@ -73,7 +73,7 @@ func (*baseExecutor) GetScanSlice(columnNames []string, tableMeta *types.TableMe
 				scanVal := sql.NullInt64{}
 				scanSlice = append(scanSlice, &scanVal)
 			}
-		case "DATE", "DATETIME", "TIME", "TIMESTAMP", "YEAR":
+		case "DATE", "DATETIME", "TIME", "TIMESTAMP":
 			var scanVal sql.NullTime
 			scanSlice = append(scanSlice, &scanVal)
 		case "DECIMAL", "DOUBLE", "FLOAT":
